@@ -70,6 +70,7 @@ fn enclosure_oracle<F: Function<Trace = VmTrace>>(f: &F, dag: &Dag, roots: &[Nod
                 Some(Op::Binary(b, _, _)) if matches!(format!("{b:?}").as_str(), "Atan" | "Mod") => 4.0,
                 _ => 0.0,
             };
+            if vals[k].is_nan() { continue; }   // "unless the point value itself is NaN"
             if half_nan || !encloses(&ivs[k], vals[k], slack) {
                 // local obligation: were the operands inside their own intervals?
                 let kids: Vec<Node> = dag.ctx.get_op(*n).unwrap().iter_children().collect();
